@@ -12,12 +12,12 @@ import (
 
 // Val is a message value in the harness's neutral form.
 type Val struct {
-	U uint64 `json:"u,omitempty"` // scalar: raw bits truncated to the declared width
-	S []byte `json:"s,omitempty"` // strings
-	L []Val  `json:"l,omitempty"` // repeated field: items
-	F []Val  `json:"f,omitempty"` // object / match payload: one Val per declared field
-	T string `json:"t,omitempty"` // match payload: dynamic packet name
-	IsL bool `json:"isl,omitempty"`
+	U   uint64 `json:"u,omitempty"` // scalar: raw bits truncated to the declared width
+	S   []byte `json:"s,omitempty"` // strings
+	L   []Val  `json:"l,omitempty"` // repeated field: items
+	F   []Val  `json:"f,omitempty"` // object / match payload: one Val per declared field
+	T   string `json:"t,omitempty"` // match payload: dynamic packet name
+	IsL bool   `json:"isl,omitempty"`
 }
 
 func mask(t string) uint64 {
